@@ -13,7 +13,10 @@ LEVEL_TEXT = (
     'terminates; the extracted model contains the closure of the focus with identical contents and nothing else; '
     'every focused address evaluates as in the original, also after the same set_cell_value calls on both. The '
     'model is tied to the running code by a differential run over generated acyclic workbooks with every '
-    'non-empty focus subset.')
+    'non-empty focus subset: models compiled from dictionaries and from .xlsx files (sheet titles that need '
+    'quoting, defined names given as the raw workbook text with $), originals that were not / partly / fully '
+    'evaluated before the extraction with error, text, boolean, float, date and array values stored in the '
+    'closure, and both orders of evaluating the two models.')
 LEVEL_NOTE = (
     'Trusted: Lean kernel (axioms propext, Classical.choice, Quot.sound), the hand-written models of extract and '
     'of the evaluator (validated by correspondence, not proved equal to the Python), copy.deepcopy, the tokenizer '
@@ -38,11 +41,17 @@ ASSUMPTIONS = [
     'by extract and outside the domain',
     'Evaluator.evaluate(<name bound to a range>) raises ValueError on every model; it is compared as an outcome',
     'input changes are set_cell_value calls on non-formula cells by address, or by a focused cell name',
-    'formulas use + - * unary- SUM COUNTA < IF on integers (the function semantics is a parameter of the theorems)',
+    'model-compared ("wired") formulas use + - * / unary- = < SUM COUNTA IF, error and text literals over integer, '
+    'float, text and boolean inputs (the function semantics is a parameter of the theorems); the "rich" family '
+    '(ISERROR, DATE, YEAR, &, MAX, AVERAGE, array-valued cells, date inputs ...) is compared real extract vs real '
+    'original only, with the dependency closure computed from the real model by the harness',
+    'float results are compared exactly between the two real models; against the Lean evaluator model (drift only) '
+    'within 1e-9 relative',
 ]
 
-SHEETS = ['Sheet1', 'S2', 'My Sheet']
+SHEETS = ['Sheet1', 'S2', 'My Sheet', "Bob's", 'P&L $']
 COLS = 'ABC'
+XLSX_SHARE = 0.08      # share of generated workbooks compiled through an .xlsx file
 
 
 # ------------------------------------------------------------------ abstract workbooks
@@ -79,23 +88,97 @@ def refs_of(fx, acc):
     return acc
 
 
+def sheet_of(addr):
+    return addr.rsplit('!', 1)[0]
+
+
+def formula_text(addr, c):
+    """the Excel text of a formula cell: ('f', tree) of the model-compared family, ('t', text) of the rich one"""
+    return c[1] if c[0] == 't' else '=' + render(c[1], sheet_of(addr))
+
+
+def raw_ref(addr, wb):
+    """a defined-name target as a workbook stores it: sheet title quoted when it has to be (or always),
+    coordinates absolute"""
+    opt = wb.get('raw') or {}
+    sheet, coord = addr.rsplit('!', 1)
+    import re
+    if opt.get('quote_all') or not re.fullmatch(r'[A-Za-z_][A-Za-z0-9_]*', sheet):
+        sheet = "'" + sheet.replace("'", "''") + "'"
+    if opt.get('abs', True):
+        coord = ':'.join('$' + p[0] + '$' + p[1:] for p in coord.split(':'))
+    return f'{sheet}!{coord}'
+
+
 def build_real(wb):
-    """compile the workbook with the real ModelCompiler, defined names registered the way parse_archive does"""
+    """compile the workbook with the real ModelCompiler: from a dictionary with the defined names registered
+    the way parse_archive does (raw workbook text), or from an .xlsx file written with openpyxl"""
     from xlcalculator import ModelCompiler
-    d = {}
-    for addr, c in wb['cells'].items():
-        if isinstance(c, tuple):
-            d[addr] = '=' + render(c[1], addr.split('!')[0])
-        else:
-            d[addr] = c
+    names = {n: raw_ref(a, wb) for n, a in wb.get('names', {}).items()}
+    names.update({n: raw_ref(a, wb) for n, a in wb.get('rnames', {}).items()})
+    if wb.get('route') == 'xlsx':
+        import os
+        import tempfile
+        import openpyxl
+        from openpyxl.workbook.defined_name import DefinedName
+        book = openpyxl.Workbook()
+        sheets = {}
+        for addr in list(wb['cells']) + list(wb.get('names', {}).values()) + list(wb.get('rnames', {}).values()):
+            title = sheet_of(addr)
+            if title not in sheets:
+                if not sheets:
+                    ws = book.active
+                    ws.title = title
+                else:
+                    ws = book.create_sheet(title)
+                sheets[title] = ws
+        for addr, c in wb['cells'].items():
+            sheets[sheet_of(addr)][addr.rsplit('!', 1)[1]] = formula_text(addr, c) if isinstance(c, tuple) else c
+        for n, text in names.items():
+            book.defined_names[n] = DefinedName(n, attr_text=text)
+        fd, path = tempfile.mkstemp(suffix='.xlsx', prefix='c13_')
+        os.close(fd)
+        try:
+            book.save(path)
+            return ModelCompiler().read_and_parse_archive(path)
+        finally:
+            os.remove(path)
+    d = {addr: (formula_text(addr, c) if isinstance(c, tuple) else c) for addr, c in wb['cells'].items()}
     comp = ModelCompiler()
     model = comp.read_and_parse_dict(d, default_sheet='Sheet1', build_code=False)
-    comp.defined_names = dict(wb.get('names', {}))
-    comp.defined_names.update(wb.get('rnames', {}))
+    comp.defined_names = names
     comp.build_defined_names()
     comp.link_cells_to_defined_names()
     model.build_code()
     return model
+
+
+def py_closure(model, focus):
+    """the dependency closure of the focus, computed from the real ORIGINAL model (terms, ranges, defined
+    names) without using extract: roots; name -> its cell / its member cells; formula cell -> what its terms
+    denote (a term that is a defined name denotes the address / range key the name is bound to); range -> members"""
+    from xlcalculator import xltypes
+    seen, todo = set(), list(focus)
+    while todo:
+        a = todo.pop()
+        if a in seen:
+            continue
+        seen.add(a)
+        nxt = []
+        if a not in model.cells and a in model.defined_names:
+            d = model.defined_names[a]
+            nxt += [d.address] if isinstance(d, xltypes.XLCell) else [x for row in d.cells for x in row]
+        cell = model.cells.get(a)
+        if cell is not None and cell.formula is not None:
+            for t in cell.formula.terms:
+                name = t.rsplit('!', 1)[-1]
+                if t not in model.cells and t not in model.ranges and name in model.defined_names:
+                    t = model._defn_address(model.defined_names[name])
+                nxt.append(t)
+        if a in model.ranges:
+            nxt += [x for row in model.ranges[a].cells for x in row]
+        todo += nxt
+    return seen
 
 
 def wire_request(wb, model, focus, sets, fuel=60):
@@ -106,7 +189,7 @@ def wire_request(wb, model, focus, sets, fuel=60):
     for addr, cell in model.cells.items():
         c = wb['cells'].get(addr)
         if isinstance(c, tuple):
-            text = '=' + render(c[1], addr.split('!')[0])
+            text = formula_text(addr, c)
             cells.append(f'{cp(addr)}~f~{len(text)}~{evalwire.wire_fx(c[1])}')
         elif c is None:
             # a placeholder created by build_ranges: None (blank) since b6c2c71, '' before
@@ -131,8 +214,8 @@ def wire_request(wb, model, focus, sets, fuel=60):
 
 def box(a, b):
     """the range key and the member addresses of the bounding box of two addresses of one sheet"""
-    s, x = a.split('!')
-    _, y = b.split('!')
+    s, x = a.rsplit('!', 1)
+    _, y = b.rsplit('!', 1)
     c0, c1 = sorted([COLS.index(x[0]), COLS.index(y[0])])
     r0, r1 = sorted([int(x[1:]), int(y[1:])])
     members = [f'{s}!{COLS[c]}{r}' for r in range(r0, r1 + 1) for c in range(c0, c1 + 1)]
@@ -148,6 +231,8 @@ def gen_fx(rng, earlier, ranges, names, depth):
             return ('ref', rng.choice(cnames)[0])
         if earlier and r < 0.8:
             return ('ref', rng.choice(earlier))
+        if r < 0.83:
+            return ('lit', ('err', rng.choice(['#N/A', '#DIV/0!', '#VALUE!'])))
         return ('lit', rng.randint(-3, 9))
 
     def go(d):
@@ -155,7 +240,7 @@ def gen_fx(rng, earlier, ranges, names, depth):
         if d == 0 or r < 0.25:
             return leaf()
         if r < 0.55:
-            return ('app', rng.choice([0, 0, 1]), [go(d - 1), go(d - 1)])
+            return ('app', rng.choice([0, 0, 1, 3, 3]), [go(d - 1), go(d - 1)])
         if r < 0.62:
             return ('app', 2, [go(d - 1), ('lit', rng.randint(-2, 3))])
         if r < 0.68:
@@ -165,25 +250,43 @@ def gen_fx(rng, earlier, ranges, names, depth):
             args = []
             for _ in range(rng.randint(1, 2)):
                 r2 = rng.random()
-                if ranges and r2 < 0.6:
-                    args.append(('rng', rng.choice(ranges)))
-                elif rnames_ and r2 < 0.8:
+                if rnames_ and r2 < 0.4:
                     args.append(('rng', rng.choice(rnames_)[0]))
+                elif ranges and r2 < 0.8:
+                    args.append(('rng', rng.choice(ranges)))
                 else:
                     args.append(go(d - 1))
             return ('app', rng.choice([4, 4, 4, 9]), args)
-        return ('if', ('app', 10, [go(d - 1), go(d - 1)]), go(d - 1), go(d - 1))
+        if r < 0.91:
+            return ('app', 6, [go(d - 1), go(d - 1)])
+        branch = go(d - 1) if rng.random() < 0.7 else ('lit', rng.choice(['lo', 'hi', '']))
+        return ('if', ('app', 10, [go(d - 1), go(d - 1)]), go(d - 1), branch)
     return go(depth)
+
+
+def gen_const(rng):
+    """an input value: mostly integers (0 often: divisors), some floats, texts, booleans"""
+    r = rng.random()
+    if r < 0.14:
+        return 0
+    if r < 0.84:
+        return rng.randint(-9, 20)
+    if r < 0.89:
+        return rng.choice([2.5, -0.5, 0.25])
+    if r < 0.95:
+        return rng.choice(['ab', 'x y', 'Q'])   # not numeric-looking: SUM over such text is outside the model
+    return rng.choice([True, False])
 
 
 def gen_wb(rng, ncells, name_refs, depth=None):
     """an acyclic workbook: cell i refers to cells j < i (directly, through ranges whose existing members are
     all earlier, through defined names bound to earlier cells / such ranges)"""
     nsheets = rng.choice([1, 1, 2, 3])
-    sheets = SHEETS[:nsheets]
+    sheets = SHEETS[:nsheets] if rng.random() < 0.4 else rng.sample(SHEETS, nsheets)
     grid = [f'{s}!{c}{r}' for s in sheets for c in COLS for r in (1, 2, 3)]
     addrs = rng.sample(grid, min(ncells, len(grid)))
-    wb = {'cells': {}, 'names': {}, 'rnames': {}}
+    wb = {'cells': {}, 'names': {}, 'rnames': {}, 'route': 'xlsx' if rng.random() < XLSX_SHARE else 'dict',
+          'raw': {'abs': rng.random() < 0.8, 'quote_all': rng.random() < 0.2}}
     order = []
     chain = depth if depth is not None else rng.randint(0, 6)
     for i, a in enumerate(addrs):
@@ -193,7 +296,7 @@ def gen_wb(rng, ncells, name_refs, depth=None):
         for _ in range(4):
             if len(earlier) >= 1:
                 p, q = rng.choice(earlier), rng.choice(earlier)
-                if p.split('!')[0] == q.split('!')[0]:
+                if sheet_of(p) == sheet_of(q):
                     key, members = box(p, q)
                     if len(members) > 1 and not (set(members) & later):
                         ranges.append(key)
@@ -201,7 +304,7 @@ def gen_wb(rng, ncells, name_refs, depth=None):
         if name_refs:
             names = [(n, 'c') for n, t in wb['names'].items()] + [(n, 'r') for n in wb['rnames']]
         if not earlier or (i >= chain and rng.random() < 0.45) or (i < 2 and rng.random() < 0.7):
-            wb['cells'][a] = rng.randint(-9, 20)
+            wb['cells'][a] = gen_const(rng)
         else:
             fx = gen_fx(rng, earlier[-3:] if rng.random() < 0.6 else earlier, ranges, names, rng.randint(1, 2))
             if not refs_of(fx, []):
@@ -211,7 +314,69 @@ def gen_wb(rng, ncells, name_refs, depth=None):
         # defined names bound to what exists so far
         if rng.random() < 0.22 and len(wb['names']) < 2:
             wb['names'][f'nm{len(wb["names"]) + 1}'] = rng.choice(order)
-        if rng.random() < 0.15 and len(wb['rnames']) < 2 and ranges:
+        if rng.random() < 0.25 and len(wb['rnames']) < 2 and ranges:
+            wb['rnames'][f'rn{len(wb["rnames"]) + 1}'] = rng.choice(ranges)
+    return wb
+
+
+RICH = [
+    '={a}/{b}', '={a}/{b}', '=IF(ISERROR({a}),-1,{a})+1', '={a}&"x"', '={a}={b}', '=DATE(2020,1,{k})',
+    '=YEAR({a})', '=ISNUMBER({a})', '=LEN({a}&"ab")', '=SUM({r})', '=MAX({r})', '=AVERAGE({r})', '={r}',
+    '=NOT({a}>2)', '=#N/A', '="txt"', '=TRUE', '={a}+{b}', '=IF({a}>{b},"hi",{b})', '=ISBLANK({a})',
+    '=UPPER({a}&"q")', '=COUNT({r})', '=AND({a}>0,{b}>0)', '={a}*1', '=ISNA({a})', '=ISTEXT({a})',
+    '=SUM({r},{a})', '=IF(ISERROR({a}/{b}),{b},{a}/{b})', '=MIN({r})-{a}', '=COUNTA({r})', '=-{a}',
+    '=IF({a}=0,#DIV/0!,1/{a})', '={n}+1', '=SUM({rn})', '={a}&{b}', '=ABS({a})',
+]
+
+
+def gen_rich(rng, ncells):
+    """a workbook whose formulas are Excel text over a wider function set (not sent to the Lean driver):
+    results are errors, texts, booleans, floats, dates and arrays; acyclic by construction"""
+    import datetime
+    nsheets = rng.choice([1, 2, 2, 3])
+    sheets = rng.sample(SHEETS, nsheets)
+    grid = [f'{s}!{c}{r}' for s in sheets for c in COLS for r in (1, 2, 3)]
+    addrs = rng.sample(grid, min(ncells, len(grid)))
+    route = 'xlsx' if rng.random() < 3 * XLSX_SHARE else 'dict'
+    wb = {'cells': {}, 'names': {}, 'rnames': {}, 'route': route,
+          'raw': {'abs': rng.random() < 0.8, 'quote_all': rng.random() < 0.2}}
+    order = []
+    for i, a in enumerate(addrs):
+        sheet = sheet_of(a)
+        later = set(addrs[i:])
+        ranges = []
+        for _ in range(4):
+            if order:
+                p, q = rng.choice(order), rng.choice(order)
+                if sheet_of(p) == sheet_of(q):
+                    key, members = box(p, q)
+                    if len(members) > 1 and not (set(members) & later):
+                        ranges.append(key)
+        if i < 2 or rng.random() < 0.35:
+            r = rng.random()
+            if route == 'xlsx' and r < 0.12:
+                wb['cells'][a] = datetime.datetime(2021, rng.randint(1, 12), rng.randint(1, 28))
+            else:
+                wb['cells'][a] = gen_const(rng)
+        else:
+            for _ in range(20):
+                t = rng.choice(RICH)
+                if ('{r}' in t and not ranges) or ('{n}' in t and not wb['names']) \
+                        or ('{rn}' in t and not wb['rnames']):
+                    continue
+                break
+            else:
+                t = '={a}+{b}'
+            loc = lambda x: evalwire.local(x, sheet)  # noqa: E731
+            text = t.format(a=loc(rng.choice(order)), b=loc(rng.choice(order)), k=rng.randint(1, 28),
+                            r=loc(rng.choice(ranges)) if ranges else '',
+                            n=rng.choice(list(wb['names'])) if wb['names'] else '',
+                            rn=rng.choice(list(wb['rnames'])) if wb['rnames'] else '')
+            wb['cells'][a] = ('t', text)
+        order.append(a)
+        if rng.random() < 0.2 and len(wb['names']) < 2:
+            wb['names'][f'nm{len(wb["names"]) + 1}'] = rng.choice(order)
+        if rng.random() < 0.2 and len(wb['rnames']) < 2 and ranges:
             wb['rnames'][f'rn{len(wb["rnames"]) + 1}'] = rng.choice(ranges)
     return wb
 
@@ -241,6 +406,19 @@ def hand_made():
                            'My Sheet!A1': ('f', add(ref(S + 'B1'), ('lit', 1)))},
                  'names': {'nm1': 'My Sheet!A1', 'nm2': S + 'A1'}, 'rnames': {'rn1': S + 'A1:A2'}},
                 'focused cell names and range name'))
+    # values other than numbers stored in the closure of an evaluated original (error, text, boolean, float)
+    out.append(({'cells': {S + 'A1': 10, S + 'A2': 0, S + 'A3': 'ab', S + 'B1': ('f', ('app', 3, [ref(S + 'A1'), ref(S + 'A2')])),
+                           S + 'B2': ('f', ('if', ('app', 10, [ref(S + 'A2'), ('lit', 1)]), ('lit', 'lo'), ref(S + 'B1'))),
+                           S + 'B3': ('f', ('app', 6, [ref(S + 'A3'), ('lit', 'ab')])),
+                           S + 'C1': ('f', add(ref(S + 'B1'), ('lit', 1)))}}, 'error, text and boolean results'))
+    # defined names on a sheet whose title must be quoted, compiled from an .xlsx file and from a dictionary
+    Q = "Bob's!"
+    for route in ('xlsx', 'dict'):
+        out.append(({'cells': {Q + 'A1': 1, Q + 'A2': 2, Q + 'B1': 10,
+                               'Calc!A1': ('f', ('app', 4, [('rng', 'rn1')])),
+                               'Calc!A2': ('f', ('app', 2, [ref('Calc!A1'), ref('nm1')]))},
+                     'names': {'nm1': Q + 'B1'}, 'rnames': {'rn1': Q + 'A1:A3'}, 'route': route},
+                    'names on a quoted sheet (' + route + ')'))
     return out
 
 
@@ -280,25 +458,37 @@ def diff_snap(a, b):
 
 
 def describe(wb):
-    cells = {a: ('=' + render(c[1], a.split('!')[0]) if isinstance(c, tuple) else c) for a, c in wb['cells'].items()}
-    return {'cells': cells, 'names': wb.get('names', {}), 'range_names': wb.get('rnames', {})}
+    cells = {a: (formula_text(a, c) if isinstance(c, tuple) else c) for a, c in wb['cells'].items()}
+    return {'cells': cells, 'names': {n: raw_ref(a, wb) for n, a in wb.get('names', {}).items()},
+            'range_names': {n: raw_ref(a, wb) for n, a in wb.get('rnames', {}).items()},
+            'compiled_from': wb.get('route', 'dict')}
 
 
 class Case:
-    __slots__ = ('wb', 'focus', 'sets', 'evaluated', 'tag', 'line', 'real')
+    __slots__ = ('wb', 'focus', 'sets', 'pre', 'order', 'tag', 'line', 'real', 'rich')
+
+
+def is_rich(wb):
+    import datetime
+    return any((isinstance(c, tuple) and c[0] == 't') or isinstance(c, datetime.datetime)
+               for c in wb['cells'].values())
 
 
 def run_real(case):
-    """everything observed on the real code for one case"""
+    """everything observed on the real code for one case.  History: compile; evaluate the cells `pre` of the
+    original; extract; then evaluate every focused item on both models, apply the input changes to both and
+    evaluate again — the extract first (order 'x') or the original first (order 'm').  The original is
+    compared with its state before the extraction whenever only the extract has been touched since."""
     from xlcalculator import ModelCompiler, Evaluator
     wb, focus, sets = case.wb, case.focus, case.sets
     model = build_real(wb)
     obs = {}
-    if case.evaluated:
+    if case.pre:
         ev = Evaluator(model)
-        for a in list(model.cells):
+        for a in case.pre:
             canon_result(ev.evaluate, a)
-    case.line = wire_request(wb, model, focus, sets)
+    case.line = None if case.rich else wire_request(wb, model, focus, sets)
+    obs['closure'] = py_closure(model, focus)
     snap0 = snapshot(model)
     try:
         x = ModelCompiler.extract(model, list(focus))
@@ -313,18 +503,31 @@ def run_real(case):
                    'formulae': sorted(x.formulae), 'order': list(x.cells)}
     obs['all_cells'] = set(model.cells)
     obs['all_ranges'] = set(model.ranges)
-    ex = Evaluator(x)
-    obs['x0'] = [canon_result(ex.evaluate, f) for f in focus]
-    obs['pure_eval'] = diff_snap(snap0, snapshot(model))
-    for a, v in sets:
-        x.set_cell_value(a, v)
-    obs['x1'] = [canon_result(ex.evaluate, f) for f in focus]
-    obs['pure_sets'] = diff_snap(snap0, snapshot(model))
-    em = Evaluator(model)
-    obs['m0'] = [canon_result(em.evaluate, f) for f in focus]
-    for a, v in sets:
-        model.set_cell_value(a, v)
-    obs['m1'] = [canon_result(em.evaluate, f) for f in focus]
+    ex, em = Evaluator(x), Evaluator(model)
+    if case.order == 'x':
+        obs['x0'] = [canon_result(ex.evaluate, f) for f in focus]
+        obs['pure_eval'] = diff_snap(snap0, snapshot(model))
+        for a, v in sets:
+            x.set_cell_value(a, v)
+        obs['x1'] = [canon_result(ex.evaluate, f) for f in focus]
+        obs['pure_sets'] = diff_snap(snap0, snapshot(model))
+        obs['m0'] = [canon_result(em.evaluate, f) for f in focus]
+        for a, v in sets:
+            model.set_cell_value(a, v)
+        obs['m1'] = [canon_result(em.evaluate, f) for f in focus]
+    else:
+        obs['m0'] = [canon_result(em.evaluate, f) for f in focus]
+        snap1 = snapshot(model)
+        obs['x0'] = [canon_result(ex.evaluate, f) for f in focus]
+        obs['pure_eval'] = diff_snap(snap1, snapshot(model))
+        for a, v in sets:
+            model.set_cell_value(a, v)
+        obs['m1'] = [canon_result(em.evaluate, f) for f in focus]
+        snap2 = snapshot(model)
+        for a, v in sets:
+            x.set_cell_value(a, v)
+        obs['x1'] = [canon_result(ex.evaluate, f) for f in focus]
+        obs['pure_sets'] = diff_snap(snap2, snapshot(model))
     return obs
 
 
@@ -335,10 +538,11 @@ def gen_sets(rng, wb, focus, model_cells=None):
         r = rng.random()
         focused_names = [f for f in focus if f in wb.get('names', {})
                          and not isinstance(wb['cells'][wb['names'][f]], tuple)]
+        v = rng.randint(-9, 30) if rng.random() < 0.8 else rng.choice([0, 0, 2.5, 'ab', True])
         if focused_names and r < 0.2:
-            sets.append((rng.choice(focused_names), rng.randint(-9, 30)))
+            sets.append((rng.choice(focused_names), v))
         elif inputs:
-            sets.append((rng.choice(inputs), rng.randint(-9, 30)))
+            sets.append((rng.choice(inputs), v))
     return sets
 
 
@@ -354,8 +558,15 @@ def gen_cases(ctx):
     def add(wb, focus, tag, evaluated=None):
         c = Case()
         c.wb, c.focus, c.tag = wb, tuple(focus), tag
+        c.rich = is_rich(wb)
         c.sets = gen_sets(rng, wb, focus)
-        c.evaluated = rng.random() < 0.35 if evaluated is None else evaluated
+        # history before the extraction: nothing / some / all cells of the original evaluated
+        cells = list(wb['cells'])
+        if evaluated is None:
+            evaluated = rng.choice(['none', 'none', 'none', 'some', 'all'])
+        c.pre = tuple(cells if evaluated == 'all' else
+                      rng.sample(cells, rng.randint(1, len(cells))) if evaluated == 'some' else ())
+        c.order = rng.choice('xxm')
         cases.append(c)
 
     # regression inputs (corpus/C13) first, then hand-made shapes: every non-empty focus subset, on a fresh and
@@ -366,25 +577,37 @@ def gen_cases(ctx):
             for sub in itertools.combinations(items, k):
                 if len(items) > 5 and k not in (1, 2, len(items)):
                     continue
-                add(wb, sub, tag, evaluated=False)
+                if wb.get('route') == 'xlsx' and k > 2:
+                    continue
+                add(wb, sub, tag, evaluated='none')
                 if k <= 2:
-                    add(wb, sub, tag, evaluated=True)
+                    add(wb, sub, tag, evaluated='all')
     # small models: every non-empty focus subset of cells and names
-    nsmall = 500 if thorough else 40
+    nsmall = 500 if thorough else 34
     for i in range(nsmall):
-        wb = gen_wb(rng, rng.randint(2, 6), name_refs=(i % 4 == 3), depth=i % 7)
+        wb = gen_wb(rng, rng.randint(2, 6), name_refs=(i % 4 >= 2), depth=i % 7)
+        if wb['route'] == 'xlsx':
+            wb['route'] = 'dict'        # the file route is sampled below (one file per case is too slow here)
         items = focus_items(wb)
         for k in range(1, len(items) + 1):
             for sub in itertools.combinations(items, k):
                 add(wb, sub, 'small-exhaustive')
     # larger models: sampled focus sets
-    nlarge = 8000 if thorough else 400
+    nlarge = 8000 if thorough else 330
     for i in range(nlarge):
-        wb = gen_wb(rng, rng.randint(7, 18), name_refs=(i % 5 == 4))
+        wb = gen_wb(rng, rng.randint(7, 18), name_refs=(i % 5 == 4 or i % 7 == 3))
         items = focus_items(wb)
         for _ in range(6 if thorough else 4):
             k = rng.choice([1, 1, 2, 3, rng.randint(1, len(items))])
             add(wb, rng.sample(items, k), 'large-sampled')
+    # the rich family: wider function set, values of every kind stored by an evaluation before the extraction
+    nrich = 6000 if thorough else 300
+    for i in range(nrich):
+        wb = gen_rich(rng, rng.randint(4, 12))
+        items = focus_items(wb)
+        for _ in range(4):
+            k = rng.choice([1, 1, 2, 3, rng.randint(1, len(items))])
+            add(wb, rng.sample(items, k), 'rich', evaluated=rng.choice(['none', 'some', 'all', 'all']))
     return cases
 
 
@@ -400,7 +623,7 @@ def depth_of(wb):
     rn = dict(wb.get('rnames', {}))
 
     def members(key):
-        s, rest = key.split('!')
+        s, rest = key.rsplit('!', 1)
         p, q = rest.split(':')
         return box(f'{s}!{p}', f'{s}!{q}')[1]
 
@@ -426,15 +649,20 @@ def depth_of(wb):
 
 
 def run(ctx):
+    import warnings
     import xlcalculator  # noqa: F401
+    warnings.filterwarnings('ignore')      # dateutil / openpyxl chatter of the code under test
     res = Result()
-    res.rule = ('acyclic workbooks of dependency depth 0-6 over three sheets with ranges, cell names and range '
-                'names (hand-made shapes + generated); every non-empty focus subset of cells and names for models '
-                'of <= 6 cells, sampled subsets for 7-18 cells; fresh and already evaluated originals; 1-3 random '
-                'set_cell_value on input cells applied to both models; real extract vs real original (values '
-                'before/after the changes, original unchanged by deep comparison, closure contained) and vs the '
-                'Lean model of extract (copied key sets); non-trivial = distinct (workbook, focus) whose closure '
-                'is larger than the focus')
+    res.rule = ('acyclic workbooks of dependency depth 0-6 over up to three of five sheets (titles with blank, '
+                'apostrophe, & and $) with ranges, cell names and range names given as raw workbook text (quoted, '
+                '$-absolute), compiled from a dictionary or from an .xlsx file (hand-made shapes + corpus + '
+                'generated); every non-empty focus subset of cells and names for models of <= 6 cells, sampled '
+                'subsets for 7-18 cells; originals not / partly / fully evaluated before the extraction (error, '
+                'text, boolean, float, date, array values stored in the closure); 1-3 random set_cell_value on '
+                'input cells applied to both models, extract or original evaluated first; real extract vs real '
+                'original (values before/after the changes, original unchanged by deep comparison, closure '
+                'contained) and, for the model-compared family, vs the Lean model of extract (copied key sets, '
+                'closure); non-trivial = distinct (workbook, focus, history) whose closure is larger than the focus')
     if getattr(ctx, 'replay', None):
         cases = [case_of_replay(ctx.replay)]
     else:
@@ -444,8 +672,9 @@ def run(ctx):
         chunk = cases[lo:lo + 4000]
         for c in chunk:
             c.real = run_real(c)
-        resp = ctx.driver.batch([c.line for c in chunk])
-        classify(ctx, res, chunk, resp)
+        wired = [c for c in chunk if not c.rich]
+        resp = iter(ctx.driver.batch([c.line for c in wired]))
+        classify(ctx, res, [(c, None if c.rich else next(resp)) for c in chunk])
         for c in chunk:
             c.real = c.line = None
     if res.drift:
@@ -459,8 +688,7 @@ def load_corpus():
     for path in sorted((common.CORPUS / 'C13').glob('*.json')):
         e = json.loads(path.read_text())
         a = e['abstract']
-        out.append(({'cells': {k: tuplify(v) for k, v in a['cells'].items()}, 'names': a.get('names', {}),
-                     'rnames': a.get('rnames', {})}, 'corpus:' + path.stem))
+        out.append((wb_of_json(a), 'corpus:' + path.stem))
     return out
 
 
@@ -479,36 +707,99 @@ def case_of_replay(path):
     inp = json.loads(p.read_text())['input']
     a = inp['abstract']
     c = Case()
-    c.wb = {'cells': {k: tuplify(v) for k, v in a['cells'].items()}, 'names': a.get('names', {}),
-            'rnames': a.get('rnames', {})}
+    c.wb = wb_of_json(a)
     c.focus = tuple(inp['focus'])
     c.sets = [tuple(x) for x in inp['sets']]
-    c.evaluated = inp['evaluated_before']
+    c.pre = tuple(inp.get('evaluated_before') or ())
+    c.order = inp.get('order', 'x')
+    c.rich = is_rich(c.wb)
     c.tag = 'replay'
     return c
 
 
-def classify(ctx, res, cases, resp):
-    for c, r in zip(cases, resp):
-        d = parse_kv(r)
-        if 'spec' not in d:
-            raise RuntimeError(f'driver: {r!r} for {c.line[:300]!r}')
-        if d['sat'] != '1':
-            raise RuntimeError('closure computation did not saturate')
-        if d['wf'] != '1' or d['focusok'] != '1':
-            raise RuntimeError(f'generated model is outside the domain (wf={d["wf"]}, focusok={d["focusok"]})')
+def wb_of_json(a):
+    import datetime
+
+    def cell(v):
+        if isinstance(v, dict) and 'datetime' in v:
+            return datetime.datetime.fromisoformat(v['datetime'])
+        return tuplify(v)
+    wb = {'cells': {k: cell(v) for k, v in a['cells'].items()}, 'names': a.get('names', {}),
+          'rnames': a.get('rnames', {})}
+    for k in ('route', 'raw'):
+        if k in a:
+            wb[k] = a[k]
+    return wb
+
+
+def wb_to_json(wb):
+    import datetime
+    out = dict(wb)
+    out['cells'] = {k: ({'datetime': v.isoformat()} if isinstance(v, datetime.datetime) else v)
+                    for k, v in wb['cells'].items()}
+    return out
+
+
+def close_value(a, b):
+    """equality for the comparison with the Lean evaluator model: floats within 1e-9 relative"""
+    if same_value(a, b):
+        return True
+    na, nb = common.num_value(a), common.num_value(b)
+    return na is not None and nb is not None and abs(na - nb) <= abs(nb) / 10**9
+
+
+def classify(ctx, res, pairs):
+    for c, r in pairs:
+        classify_one(res, c, r)
+
+
+def classify_one(res, c, r):
+    before = len(res.violations)
+    try:
+        classify_case(res, c, r)
+    finally:
+        if len(res.violations) > before:
+            res.count('violating-shape:' + c.tag)
+
+
+def classify_case(res, c, r):
+    if True:
         obs = c.real
-        inp = {'workbook': describe(c.wb), 'focus': list(c.focus), 'sets': c.sets, 'evaluated_before': c.evaluated,
-               'abstract': c.wb}
+        d = None
+        if r is not None:
+            d = parse_kv(r)
+            if 'spec' not in d:
+                raise RuntimeError(f'driver: {r!r} for {c.line[:300]!r}')
+            if d['sat'] != '1':
+                raise RuntimeError('closure computation did not saturate')
+            if d['wf'] != '1' or d['focusok'] != '1':
+                # the compiled original lacks the hygiene the theorems assume (never on generated workbooks
+                # unless the compiler itself changed): the Lean side says nothing, the property is still
+                # checked real extract vs real original with the closure computed by the harness
+                res.count('compiled-model-outside-WF')
+                d = None
+        inp = {'workbook': describe(c.wb), 'focus': list(c.focus), 'sets': c.sets,
+               'evaluated_before': list(c.pre), 'order': c.order, 'abstract': wb_to_json(c.wb)}
         res.evaluations += 1
         res.count('shape:' + c.tag)
-        res.count('depth:%d' % depth_of(c.wb))
+        res.count('route:' + c.wb.get('route', 'dict'))
+        if not c.rich:
+            res.count('depth:%d' % depth_of(c.wb))
         res.count('focus_size:%d' % min(len(c.focus), 6))
-        res.count('evaluated_original' if c.evaluated else 'fresh_original')
-        guard = d['guard'] == '1'
-        closure = split_keys(d['closure'])
+        res.count('history:' + ('fresh original' if not c.pre else 'fully evaluated original'
+                                if len(c.pre) == len(c.wb['cells']) else 'partly evaluated original'))
+        res.count('order:' + ('extract evaluated first' if c.order == 'x' else 'original evaluated first'))
+        # the closure: computed by the harness from the real original; for the model-compared family also by
+        # the Lean Spec (they must coincide: drift otherwise, and both are demanded of the extract)
+        closure = set(obs['closure'])
+        if d is not None:
+            lean_closure = set(split_keys(d['closure']))
+            if lean_closure != closure:
+                res.drift.append({'input': inp, 'what': 'closure: harness vs Lean Spec',
+                                  'model': sorted(lean_closure), 'real': sorted(closure)})
+                closure |= lean_closure
         if len(closure) > len(c.focus):
-            res.nontrivial.add(c.line)
+            res.nontrivial.add(repr((c.wb['cells'], c.focus, c.pre, c.order)))
         for key in ('pure', 'pure_eval', 'pure_sets'):
             if obs.get(key):
                 res.violations.append({'what': 'extraction (or a change of the extract) changed the original model'
@@ -517,35 +808,33 @@ def classify(ctx, res, cases, resp):
         if 'raise' in obs:
             res.count('outcome:extract-raised')
             res.violations.append({'what': 'extract raised', 'input': inp,
-                                   'expected': 'an extracted model' if 'err' not in d
+                                   'expected': 'an extracted model' if d is None or 'err' not in d
                                    else 'model: KeyError ' + un_cp(d['err']),
                                    'got': obs['raise']})
-            continue
-        if 'err' in d:
+            return
+        if d is not None and 'err' in d:
             res.drift.append({'input': inp, 'model': 'KeyError ' + un_cp(d['err']), 'real': 'extracted'})
-            continue
+            return
         res.count('outcome:extracted')
         keys = obs['keys']
         res.sample({'focus': list(c.focus), 'workbook': describe(c.wb), 'extracted_cells': keys['cells'],
                     'extracted_ranges': keys['ranges'], 'values': obs['x1']})
-        model_keys = {'cells': sorted(split_keys(d['cells'])), 'ranges': sorted(split_keys(d['ranges'])),
-                      'names': sorted(split_keys(d['names'])), 'formulae': sorted(split_keys(d['formulae']))}
-        same_keys = all(model_keys[k] == keys[k] for k in model_keys)
-        impl0, impl1 = d['impl0'].split(' '), d['impl'].split(' ')
-        spec0, spec1 = d['spec0'].split(' '), d['spec'].split(' ')
-        rnames = c.wb.get('rnames', {})
+        for v in obs['m0'] + obs['m1']:
+            res.count('value:' + ('error' if v.startswith('E:') else 'raises' if v.startswith('X:') else
+                                  {'I': 'integer', 'F': 'float', 'T': 'text', 'B': 'boolean', 'Z': 'blank',
+                                   'D': 'date', 'A': 'array'}.get(v[:1], 'other')))
         # 1. the property: focused addresses evaluate alike, before and after the changes
         bad = False
         for i, f in enumerate(c.focus):
             for phase, xr, mr in (('before', obs['x0'][i], obs['m0'][i]), ('after', obs['x1'][i], obs['m1'][i])):
                 if same_value(xr, mr):
-                    continue
+                    return
                 bad = True
                 res.violations.append({'what': f'focused {f} evaluates differently in the extracted model '
                                                f'({phase} the input changes)', 'input': inp,
                                        'expected': mr, 'got': xr})
         # 2. the extracted model contains the closure
-        missing = [a for a in closure
+        missing = [a for a in sorted(closure)
                    if (a in obs['all_cells'] and a not in keys['cells'])
                    or (a in obs['all_ranges'] and a not in keys['ranges'])]
         if missing:
@@ -553,24 +842,31 @@ def classify(ctx, res, cases, resp):
                                            'the focus', 'input': inp, 'expected': sorted(closure),
                                    'got': {'cells': keys['cells'], 'ranges': keys['ranges'],
                                            'missing': missing}})
-        # nothing outside the closure is needed; a larger extract is reported as a note, not a violation
-        extra = [a for a in keys['cells'] + keys['ranges'] if a not in closure]
-        if extra:
+        # nothing outside the closure is needed; a larger extract is counted, not a violation
+        if [a for a in keys['cells'] + keys['ranges'] if a not in closure]:
             res.count('extract-larger-than-closure')
         if keys['formulae']:
             res.notes.append('extract now fills formulae')
+        if d is None:
+            return
         # 3. model validation (drift, not violations)
+        model_keys = {'cells': sorted(split_keys(d['cells'])), 'ranges': sorted(split_keys(d['ranges'])),
+                      'names': sorted(split_keys(d['names'])), 'formulae': sorted(split_keys(d['formulae']))}
+        same_keys = all(model_keys[k] == keys[k] for k in model_keys)
+        impl0, impl1 = d['impl0'].split(' '), d['impl'].split(' ')
+        spec0, spec1 = d['spec0'].split(' '), d['spec'].split(' ')
+        rnames = c.wb.get('rnames', {})
         if not same_keys and not missing and not bad:
             res.drift.append({'input': inp, 'what': 'copied key sets', 'model': model_keys,
                               'real': {k: keys[k] for k in model_keys}})
         for i, f in enumerate(c.focus):
             if f in rnames:
-                continue
-            if not same_value(obs['m0'][i], spec0[i]) or not same_value(obs['m1'][i], spec1[i]):
+                return
+            if not close_value(obs['m0'][i], spec0[i]) or not close_value(obs['m1'][i], spec1[i]):
                 res.drift.append({'input': inp, 'what': f'evaluator model on the original at {f}',
                                   'model': [spec0[i], spec1[i]], 'real': [obs['m0'][i], obs['m1'][i]]})
-            elif not bad and same_keys and (not same_value(obs['x0'][i], impl0[i])
-                                            or not same_value(obs['x1'][i], impl1[i])):
+            elif not bad and same_keys and (not close_value(obs['x0'][i], impl0[i])
+                                            or not close_value(obs['x1'][i], impl1[i])):
                 res.drift.append({'input': inp, 'what': f'evaluator model on the extract at {f}',
                                   'model': [impl0[i], impl1[i]], 'real': [obs['x0'][i], obs['x1'][i]]})
-        res.count('names:' + ('none-in-closure' if guard else 'defined-names-used-in-closure'))
+        res.count('names:' + ('none-in-closure' if d['guard'] == '1' else 'defined-names-used-in-closure'))
